@@ -613,11 +613,23 @@ fn quick_pair(sc: &mut Sc, name: &str, res_i: &str, res_r: &str, seed: u64, stat
     if !sc.ex.build(1, &mk(true)).is_ok() || !sc.ex.build(2, &mk(false)).is_ok() {
         return false;
     }
+    // `dangerously_get_raw_split` is callable at any time and must not influence the session: in a third of the
+    // sessions it is called on both sides before the first message, in another third after every message (seeded round
+    // 6, C04-I: a split memoised by an early call froze the transport keys)
+    let peek = seed % 3;
+    if peek == 1 {
+        let _ = sc.ex.raw_split(1);
+        let _ = sc.ex.raw_split(2);
+    }
     for k in 0..inst.msgs.len() {
         let (w, rd) = if k % 2 == 0 { (1, 2) } else { (2, 1) };
         let Some(m) = sc.ex.hs_write(w, &[], 300).bytes().map(<[u8]>::to_vec) else { return false };
         if !sc.ex.hs_read(rd, &m, 300).is_ok() {
             return false;
+        }
+        if peek == 2 {
+            let _ = sc.ex.raw_split(1);
+            let _ = sc.ex.raw_split(2);
         }
     }
     sc.ex.convert(1, stateless).is_ok() && sc.ex.convert(2, stateless).is_ok()
